@@ -858,3 +858,58 @@ theorem sp_acceptCIString (str tl : Text) :
 theorem sp_acceptCIString_no {t : Text} (h : t.head? ≠ some 94) : Sp acceptCIString t false t [] := by
   intro s hs
   exact ⟨s, by simp [acceptCIString, St.peek, hs, h], hs, by simp⟩
+
+/-! ### sequencing steps in tactic proofs
+
+`sp_begin` makes the emitted tokens a metavariable, `sp_step h` peels one `>>=` off with the
+triple `h`, the final equation between the token lists is closed at the end. -/
+
+theorem Sp.bind' {α β} {m : M α} {f : α → M β} {inp t1 t2 : Text} {a : α} {b : β}
+    {k1 k2 : List KV} (h1 : Sp m inp a t1 k1) (h2 : Sp (f a) t1 b t2 k2) :
+    Sp (m >>= f) inp b t2 (k1 ++ k2) := Sp.bind h1 h2 rfl
+
+theorem Sp.start {α} {m : M α} {inp inp' tl : Text} {a : α} {k k' : List KV}
+    (h : Sp m inp a tl k) (hi : inp' = inp) (hk : k' = k) : Sp m inp' a tl k' := by
+  subst hi hk; exact h
+
+macro "sp_begin" : tactic => `(tactic| refine Sp.start ?_ ?hi ?hk)
+macro "sp_step " h:term : tactic =>
+  `(tactic| (refine Sp.bind' $h ?_; try simp only [↓reduceIte, Bool.false_eq_true]))
+
+/-! ### the canonical text of a token list -/
+
+@[simp] theorem spellAll_nil : spellAll [] = [] := rfl
+
+theorem spellAll_cons (kv : KV) (r : List KV) : spellAll (kv :: r) = spell kv ++ 32 :: spellAll r := by
+  simp [spellAll]
+
+theorem spellAll_append (a b : List KV) : spellAll (a ++ b) = spellAll a ++ spellAll b := by
+  simp [spellAll]
+
+theorem length_le_spellAll : ∀ kvs : List KV, kvs.length ≤ (spellAll kvs).length := by
+  intro kvs
+  induction kvs with
+  | nil => simp
+  | cons kv r ih => rw [spellAll_cons]; simp; omega
+
+/-! ### tags -/
+
+theorem sp_acceptTag_some {t : Text} (h : IsTagName t) {tl : Text} (ht : Stop tl) :
+    Sp acceptTag (spellAll (tagKV (some t)) ++ tl) () tl (tagKV (some t)) := by
+  unfold acceptTag
+  sp_begin
+  sp_step (sp_scanEmit .tag (mTag_tag h (61 :: 32 :: tl)))
+  sp_step (sp_triv (stop_tokc _ (by decide)))
+  sp_step (sp_expect 61 .assignOp .expectedAssign _)
+  exact sp_triv ht
+  case hi => simp [tagKV, spellAll_cons, spell]
+  case hk => simp [tagKV]
+
+theorem sp_acceptTag_none {t : Text} (h : Hd (fun c => c != 35) t) : Sp acceptTag t () t [] := by
+  obtain ⟨c, r, rfl, hc⟩ := h.dest
+  unfold acceptTag
+  sp_begin
+  sp_step (sp_scanEmit_none .tag (mTag_none r (by simpa using hc)))
+  exact Sp.pure () _
+  case hi => rfl
+  case hk => simp
